@@ -139,8 +139,11 @@ func (h *H) Do(line string) {
 		h.collide = map[string]bool{}
 		maxfee := h.E.CCfg.GetMaxTxFee(c.Height + 1)
 		maxnum := h.E.CCfg.GetP(c.Height).MaxTxNumber
-		h.emit(fmt.Sprintf("env cap=%d shmax=%d per=%d last=%d minfee=%d maxrate=%d level=%s noexec=%s h=%d bt=%d now=%d ; maxfee=%d maxtxnum=%d",
-			c.Cap, c.ShMax, c.Per, c.Last, c.MinFee, c.MaxRate, b01(c.Level), b01(c.NoExec), c.Height, c.BlkTime, c.Now, maxfee, maxnum), "ok")
+		cc := h.E.CCfg
+		txh := !cc.IsPara() && cc.IsEnableFork(c.Height, "ForkTxHeight", cc.IsEnable("TxHeight"))
+		h.emit(fmt.Sprintf("env cap=%d shmax=%d per=%d last=%d minfee=%d maxrate=%d level=%s noexec=%s h=%d bt=%d now=%d ; maxfee=%d maxtxnum=%d txh=%s fbc=%s fsort=%s",
+			c.Cap, c.ShMax, c.Per, c.Last, c.MinFee, c.MaxRate, b01(c.Level), b01(c.NoExec), c.Height, c.BlkTime, c.Now, maxfee, maxnum,
+			b01(txh), b01(cc.IsFork(c.Height+1, "ForkBlockCheck")), b01(cc.IsFork(c.Height, "ForkCheckEthTxSort"))), "ok")
 		h.Out.Stat("op_env", 1)
 		return
 	}
